@@ -490,6 +490,76 @@ Lemma dispatch_restart_running s a x e poison :
             a_state y = Killing /\ a_restarting y = Some poison /\ a_uq y = a_uq x /\ a_sq y = a_sq x /\
             a_stash y = a_stash x /\ a_paused y = a_paused x.
 Proof.
-  intros Hm Hs. unfold dispatch. rewrite Hs, Hm. cbn [andb]. rewrite Hs.
+  intros Hm Hs. unfold dispatch. rewrite Hs, Hm. cbn [andb].
   destruct (a_hooks _) as [|[[h1 h2] h3] rest]; (eexists; split; [reflexivity|cbn; repeat split; auto]).
 Qed.
+
+(** * the four outcomes, stated with [user_outcome] *)
+Lemma outcome_processed s a x e tag acts p :
+  get s a = Some x -> a_cons x = CH e -> e_msg e = MUser tag acts ->
+  user_outcome x e = OutProcessed -> a_parent x = Some p ->
+  (exists l, olog (step s (EvHandle a)) = olog s ++ OSeen a (a_inst x) (mode_top x) (MUser tag acts) :: l) /\
+  ghost (step s (EvHandle a)) = ghost s.
+Proof.
+  intros Hg Hc Hm Ho Hp. unfold user_outcome in Ho.
+  destruct (a_zombie x) eqn:Hz; [discriminate|]. destruct (is_dead x e) eqn:Hd; [rewrite Hp in Ho; discriminate|].
+  exact (handle_processed_user s a x e tag acts p Hg Hc Hm Hz Hd Hp).
+Qed.
+
+Lemma outcome_processed_root s a x e tag acts :
+  get s a = Some x -> a_cons x = CH e -> e_msg e = MUser tag acts ->
+  user_outcome x e = OutProcessed -> a_parent x = None ->
+  step s (EvHandle a) = set_actor s a (handled x (Some e)).
+Proof.
+  intros Hg Hc Hm Ho Hp. unfold user_outcome in Ho.
+  destruct (a_zombie x) eqn:Hz; [discriminate|]. destruct (is_dead x e) eqn:Hd; [rewrite Hp in Ho; discriminate|].
+  exact (handle_root_user s a x e tag acts Hg Hc Hm Hz Hd Hp).
+Qed.
+
+Lemma outcome_zombie s a x e tag acts :
+  get s a = Some x -> a_cons x = CH e -> e_msg e = MUser tag acts -> user_outcome x e = OutZombie ->
+  step s (EvHandle a) = set_actor s a (handled x (Some e)).
+Proof.
+  intros Hg Hc Hm Ho. unfold user_outcome in Ho.
+  destruct (a_zombie x) eqn:Hz; [|destruct (is_dead x e), (a_parent x); discriminate].
+  exact (handle_zombie_user s a x e tag acts Hg Hc Hm Hz).
+Qed.
+
+Lemma outcome_dead_letter s a x e tag acts :
+  get s a = Some x -> a_cons x = CH e -> e_msg e = MUser tag acts -> user_outcome x e = OutDeadLetter ->
+  step s (EvHandle a) =
+  set_actor s a (upd_pend (busy x)
+    [IEnqMb 0 {| e_sys := false; e_sender := root_ref; e_msg := MDeadLetter (e_sys e) (MUser tag acts) |}; IEnqDone; IEndHandler]).
+Proof.
+  intros Hg Hc Hm Ho. unfold user_outcome in Ho.
+  destruct (a_zombie x) eqn:Hz; [discriminate|]. destruct (is_dead x e) eqn:Hd; [|discriminate].
+  destruct (a_parent x) eqn:Hp; [|discriminate].
+  rewrite (handle_dead s a x e Hg Hc Hz Hd), Hp. unfold dead_report, dead_env. rewrite Hm. reflexivity.
+Qed.
+
+Lemma outcome_dropped s a x e tag acts :
+  get s a = Some x -> a_cons x = CH e -> e_msg e = MUser tag acts -> user_outcome x e = OutDropped ->
+  step s (EvHandle a) = add_ghost (set_actor s a (handled x (a_cur x))) (ODropped (MUser tag acts)).
+Proof.
+  intros Hg Hc Hm Ho. unfold user_outcome in Ho.
+  destruct (a_zombie x) eqn:Hz; [discriminate|]. destruct (is_dead x e) eqn:Hd; [|discriminate].
+  destruct (a_parent x) eqn:Hp; [discriminate|].
+  rewrite (handle_dead s a x e Hg Hc Hz Hd), Hp, Hm. reflexivity.
+Qed.
+
+Lemma cleanup_ends_with_resume s t h x :
+  get s (self_of t) = Some x ->
+  exists sends, snd (exec1 s t h ICleanup) = sends ++ [IPub evKilled (actor_key x); IResume1].
+Proof. intros Hg. rewrite (exec1_cleanup s t h x Hg). eexists. reflexivity. Qed.
+
+Lemma exec1_beh_not_failed_stopping s t h x p m acts r :
+  get s (self_of t) = Some x -> a_zombie x = false -> a_parent x = Some p ->
+  a_state x <> Running -> r <> RecFail ->
+  ~ In IFailed (snd (exec1 s t h (IBeh m acts r))).
+Proof.
+  intros Hg Hz Hp Hs Hr Hin. apply (exec1_beh_failed_iff s t h x p m acts r Hg Hz Hp) in Hin. destruct Hin as [_ Hrep].
+  destruct r; cbn [reports] in Hrep; try congruence. destruct (a_state x); congruence.
+Qed.
+
+Lemma sup_decision_root x : sp_strategy (a_spec x) = 0%N -> sup_decision x = (DStop, a_decisions x).
+Proof. intros H. unfold sup_decision. rewrite H. reflexivity. Qed.
